@@ -1,6 +1,8 @@
 #!/bin/bash
 # usage: seedtest.sh <patch> <ID> [tier]   — apply a seeded change to /repo, run the check, undo the change
 set -u
+export VERIF_EVIDENCE_DIR=$(mktemp -d /tmp/seed_evidence.XXXXXX)   # never overwrite the committed evidence with a run on a modified tree
+trap 'rm -rf "$VERIF_EVIDENCE_DIR"' EXIT
 patch="$1"; id="$2"; tier="${3:-quick}"
 cd /repo || exit 2
 if ! git diff --quiet; then echo "/repo is dirty"; exit 2; fi
